@@ -178,6 +178,13 @@ Definition world0 : world := mkW None [] 0.
 Definition clock (e : engine) (w : world) (t : N) : N :=
   match e with EBadger => w_commits w | _ => t end.
 
+(* A clean close of Badger v1.6.2 flushes the memtable together with a `head` marker whose version
+   is the next transaction timestamp; Open resumes one past the largest version it finds: a restart
+   advances the read timestamp by one (db.go handleFlushTask / Open). Other engines: no effect
+   (memkv does not survive a restart at all; the mock TiKV is not restarted). *)
+Definition restart (e : engine) (w : world) : world :=
+  match e with EBadger => mkW (w_lock w) (w_data w) (w_commits w + 1) | _ => w end.
+
 Definition bump (w : world) (applied : bool) : world :=
   if applied then mkW (w_lock w) (w_data w) (w_commits w + 1) else w.
 
